@@ -287,7 +287,7 @@ func (env *Env) eval(x Expr) (*Val, error) {
 	case *EQuant:
 		n := *env
 		n.vars = copyVals(env.vars)
-		var binders []string
+		var binders, qnames []string
 		for _, qv := range x.Vars {
 			sort, gt, err := env.resolveType(qv.T)
 			if err != nil {
@@ -297,6 +297,7 @@ func (env *Env) eval(x Expr) (*Val, error) {
 			e.nfresh++
 			name := sym(fmt.Sprintf("q!%s!%d", qv.Name, e.nfresh))
 			binders = append(binders, "("+name+" "+sort+")")
+			qnames = append(qnames, name)
 			n.vars[qv.Name] = &Val{T: gt, L: []Sc{{name, sort}}}
 		}
 		nq := len(e.qbound)
@@ -311,6 +312,13 @@ func (env *Env) eval(x Expr) (*Val, error) {
 		q := "exists"
 		if x.Forall {
 			q = "forall"
+		}
+		if pats := selectPatterns(b, qnames); len(pats) > 0 && x.Forall {
+			var ps []string
+			for _, pt := range pats {
+				ps = append(ps, ":pattern ("+pt+")")
+			}
+			return mathVal("("+q+" ("+strings.Join(binders, " ")+") (! "+b+" "+strings.Join(ps, " ")+"))", "Bool"), nil
 		}
 		return mathVal("("+q+" ("+strings.Join(binders, " ")+") "+b+")", "Bool"), nil
 	case *ECall:
@@ -1444,4 +1452,101 @@ func (e *Enc) contentOf(st *State, v *Val) (*Val, error) {
 	args = append(args, v.L[1].T, v.L[2].T)
 	f := e.declFun(sym("cseq!"+typeStr(sl.Elem())), sorts, "Content")
 	return &Val{L: []Sc{{"(" + f + " " + strings.Join(args, " ") + ")", "Content"}}}, nil
+}
+
+// selectPatterns proposes triggers for a universally quantified clause: the innermost (select ...) terms of the body that
+// contain every bound variable (each one an alternative single-term pattern). Explicit triggers keep the solvers from
+// choosing multi-patterns or arithmetic sub-terms, which made index-wise facts about slices slow and solver-dependent.
+// No candidate -> no annotation (the solver chooses).
+func selectPatterns(body string, vars []string) []string {
+	seen := map[string]bool{}
+	var out []string
+	// positions of "(select "
+	for i := 0; i+8 <= len(body); i++ {
+		if body[i:i+8] != "(select " {
+			continue
+		}
+		// find the matching close paren
+		d := 0
+		j := i
+		inBar := false
+		for ; j < len(body); j++ {
+			c := body[j]
+			if c == '|' {
+				inBar = !inBar
+			}
+			if inBar {
+				continue
+			}
+			if c == '(' {
+				d++
+			} else if c == ')' {
+				d--
+				if d == 0 {
+					break
+				}
+			}
+		}
+		if j >= len(body) {
+			break
+		}
+		t := body[i : j+1]
+		all := true
+		for _, v := range vars {
+			if !strings.Contains(t, v) {
+				all = false
+				break
+			}
+		}
+		if !all {
+			continue
+		}
+		// innermost: no proper sub-term that is a select containing all variables
+		inner := false
+		for k := 1; k+8 <= len(t); k++ {
+			if t[k:k+8] == "(select " {
+				// sub select term
+				d2, m := 0, k
+				bar := false
+				for ; m < len(t); m++ {
+					c := t[m]
+					if c == '|' {
+						bar = !bar
+					}
+					if bar {
+						continue
+					}
+					if c == '(' {
+						d2++
+					} else if c == ')' {
+						d2--
+						if d2 == 0 {
+							break
+						}
+					}
+				}
+				sub := t[k : m+1]
+				ok := true
+				for _, v := range vars {
+					if !strings.Contains(sub, v) {
+						ok = false
+						break
+					}
+				}
+				if ok {
+					inner = true
+					break
+				}
+			}
+		}
+		if inner || seen[t] || strings.Contains(t, "(ite ") || strings.Contains(t, "(forall ") || strings.Contains(t, "(exists ") {
+			continue
+		}
+		seen[t] = true
+		out = append(out, t)
+	}
+	if len(out) > 6 {
+		return nil
+	}
+	return out
 }
